@@ -289,6 +289,8 @@ pub fn replay_main(check: &dyn Check, path: &str) -> i32 {
 }
 
 pub fn run_check(check: &dyn Check, tier: Tier, seed: u64) -> i32 {
+    // the parent replays candidates in-process while minimising: same silent, recording hook
+    crate::sim::install_panic_hook();
     let t0 = Instant::now();
     let id = check.id();
     let root = verif_root();
